@@ -59,7 +59,15 @@ class Driver(object):
                 chars = pg.get_chars()
                 rows = [tuple((ord(c), pg.get_attr(r + 1, k + 1)) for k, c in enumerate(row)) for r, row in enumerate(chars)]
             else:
-                rows = [bytes(r) for r in pg.pixels[:, :]._rows]
+                w = d.mode.pixel_width
+                rows = [bytes(r) for r in pg._pixels._rows]
+                if any(len(r) != w for r in rows):
+                    # a write that changes the length of a scan line: report once, keep going on a repaired copy
+                    if not getattr(self, 'corrupt', False):
+                        self.corrupt = True
+                        self.ctx.reject('C34 a video memory write changed the length of a scan line of page %d (mode %s) after %s' % (
+                            p, d.mode.name, self.events[-1]['stmt'] if self.events else ''), key={'clause': 'pixel_buffer_corrupted'})
+                    rows = [(r + bytes(w))[:w] for r in rows]
             pages.append(rows)
         return pages
 
@@ -156,6 +164,10 @@ class Driver(object):
 def interesting_offset(rng, span):
     """An offset into video memory, dense near rows, banks and pages (all layouts use multiples of these)."""
     k = rng.random()
+    if k < 0.12:
+        # last rows of the picture in the usual layouts (row starts of the last scan line / text row, per bank and page)
+        return min(span - 1, rng.choice([7920, 7960, 15920, 27920, 8192 + 7920, 16384 + 7920, 24576 + 7920, 3840, 1920, 7740,
+                                         8192 + 7960, 16384 + 15920, 32768 + 27920, 4096 + 3840, 2048 + 1920]) + rng.randint(0, 170))
     if k < 0.35:
         base = rng.choice([0, 2048, 4096, 8192, 16384, 24576, 32768, 8000, 7830, 16000, 28000, 40, 80, 90, 160, 8192 + 8000, 16384 + 8000])
         base *= rng.choice([1, 1, 1, 2, 3])
